@@ -11,7 +11,8 @@ import Mathlib.Data.List.Nodup
 * `C07_str_table_ok`, `C07_str_total` : `str(matcher)` is total (table of `__str__` resolutions read from the tree)
 * `C07_describe_total`, `C07_mismatch_error_str_total` : `describe()`, `get_details()`, `str(MismatchError)` are total
 * `C07_predicate_mismatch_built`  : a well-formed `MatchesPredicate` returns its Mismatch for every matchee (tuples too)
-* `C07_assertThat_iff`, `C07_expectThat`, `C07_details_nonclobbering` (+ `uniq_fresh`, `freshAll_iff`)
+* `C07_assertThat_iff`, `C07_expectThat`, `C07_expectThat_fails` (a failed expectation fails the test whatever the
+  test does afterwards; `selectExn_forced`), `C07_plain_outcomes`, `C07_details_nonclobbering` (+ `uniq_fresh`, `freshAll_iff`)
 * `holds_model`                  : the executable spec holds of the model's trace, for every input
 -/
 namespace TTV.Props.C07
@@ -564,7 +565,6 @@ theorem C07_text_repr_roundtrip (b : Bool) (p : Nat → Bool) (ml : Option Bool)
     unfold pyEval
     rw [List.append_assoc, List.append_assoc, stripPre_pre]
     simpa [Q, BS, NL] using key
-
 end TTV.Props.C07
 
 /-! # describe-ability of the stock matchers -/
@@ -747,6 +747,13 @@ theorem descrZip_none (sel : Bool) : ∀ (ms : List M) (vs : List (Option V)),
     · exact C07_describe_total sel m v
     · exact descrZip_none sel ms vs d hd
 end
+-- a failed expectation followed by skipTest in the body, an expected failure in tearDown and an erroring cleanup: addFailure
+example : (assertModel { api := .expectThat, existing := [], mismatch := some [], after := .skip, tearDown := .xfail,
+                         cleanups := [.error, .ret] }).outcome = .failure := by decide
+-- … and with a KeyboardInterrupt in a cleanup: addError, re-raised; without the mismatch the skip would be reported
+example : (assertModel { api := .expectThat, existing := [], mismatch := some [], after := .skip, cleanups := [.interrupt] })
+    = { raised := false, continued := true, names := [⟨0, 0⟩], forceFailure := true, outcome := .error, propagated := true } := by decide
+example : (assertModel { api := .expectThat, existing := [], mismatch := none, after := .skip }).outcome = .skip := by decide
 
 end TTV.Props.C07
 
@@ -841,13 +848,118 @@ theorem C07_assertThat_iff (a : AssertIn) (h : a.api ≠ .expectThat) :
   cases hm : a.mismatch <;> cases ha : a.api <;> simp_all
 
 /-- **C07 (`expectThat`)** never raises and the test body continues; the test is marked to fail once it
-has finished exactly when `match()` returned a mismatch, and is then reported as a failure. -/
+has finished exactly when `match()` returned a mismatch. -/
 theorem C07_expectThat (a : AssertIn) (h : a.api = .expectThat) :
     (assertModel a).raised = false ∧ (assertModel a).continued = true ∧
-    ((assertModel a).forceFailure = true ↔ a.mismatch.isSome = true) ∧
-    ((assertModel a).outcome = .failure ↔ a.mismatch.isSome = true) := by
+    ((assertModel a).forceFailure = true ↔ a.mismatch.isSome = true) := by
   unfold assertModel
   cases hm : a.mismatch <;> simp_all
+
+theorem mem_somesExn {e : Exn} : ∀ {l : List (Option Exn)}, e ∈ somesExn l ↔ some e ∈ l
+  | [] => by simp [somesExn]
+  | none :: r => by simp [somesExn, mem_somesExn (l := r)]
+  | some x :: r => by simp [somesExn, mem_somesExn (l := r)]
+
+theorem somesExn_all_none : ∀ {l : List (Option Exn)}, (∀ x ∈ l, x = none) → somesExn l = []
+  | [], _ => rfl
+  | none :: r, h => by simp [somesExn, somesExn_all_none (l := r) (fun x hx => h x (List.mem_cons_of_mem _ hx))]
+  | some x :: r, h => by simpa using h (some x) List.mem_cons_self
+
+/-- `_select_exception` when the forced failure was appended (it always comes last): an exception that has
+to propagate wins, otherwise the forced `AssertionError` itself — never a skip, an expected failure, an
+unexpected success or somebody else's error -/
+theorem selectExn_forced (xs : List Exn) :
+    selectExn (xs ++ [.fail]) = if .intr ∈ xs then some .intr else some .fail := by
+  unfold selectExn
+  rw [List.find?_append]
+  cases hf : xs.find? (· == Exn.intr) with
+  | some e =>
+    have he : e = .intr := by simpa using List.find?_some hf
+    have hmem : Exn.intr ∈ xs := he ▸ List.mem_of_find?_eq_some hf
+    simp [hmem, he]
+  | none =>
+    have hmem : Exn.intr ∉ xs := by
+      intro hm
+      have := List.find?_eq_none.mp hf _ hm
+      simp at this
+    simp [hmem, Exn.benign]
+
+/-- some stage of the test raises an exception that no handler claims (`KeyboardInterrupt`) -/
+def interrupted (a : AssertIn) : Prop :=
+  a.after = .interrupt ∨ a.tearDown = .interrupt ∨ .interrupt ∈ a.cleanups
+
+theorem exn_intr_iff (x : Act) : x.exn = some .intr ↔ x = .interrupt := by
+  cases x <;> simp [Act.exn]
+
+theorem intr_mem_stages (a : AssertIn) : Exn.intr ∈ stageExns false a ↔ interrupted a := by
+  unfold stageExns
+  rw [mem_somesExn]
+  simp only [Bool.false_eq_true, ↓reduceIte]
+  simp only [List.mem_cons, List.mem_map, List.mem_reverse, interrupted]
+  constructor
+  · rintro (h | h | ⟨x, hx, h⟩)
+    · exact Or.inl ((exn_intr_iff _).mp h.symm)
+    · exact Or.inr (Or.inl ((exn_intr_iff _).mp h.symm))
+    · exact Or.inr (Or.inr ((exn_intr_iff x).mp h ▸ hx))
+  · rintro (h | h | h)
+    · exact Or.inl ((exn_intr_iff _).mpr h).symm
+    · exact Or.inr (Or.inl ((exn_intr_iff _).mpr h).symm)
+    · exact Or.inr (Or.inr ⟨.interrupt, h, rfl⟩)
+
+/-- **C07 (a failed expectation fails the test — whatever happens afterwards).**  If `expectThat` recorded a
+mismatch, then for every continuation of the test — the rest of the body, `tearDown` and any number of
+cleanups each returning, skipping, raising an expected failure, an unexpected success, a failure, an
+error or a `KeyboardInterrupt` — the run is reported with `addFailure` (the forced `AssertionError` is
+appended last to the collected exceptions, and `_select_exception` prefers the last exception that is not
+a skip / expected failure), except when a stage raised an exception that has to propagate: then the
+outcome is `addError` for that exception and `run()` re-raises it.  Never success, skip, expected failure
+or unexpected success. -/
+theorem C07_expectThat_fails (a : AssertIn) (ds : List Nat) (h : a.api = .expectThat) (hm : a.mismatch = some ds) :
+    (¬ interrupted a → (assertModel a).outcome = .failure ∧ (assertModel a).propagated = false) ∧
+    (interrupted a → (assertModel a).outcome = .error ∧ (assertModel a).propagated = true) ∧
+    failureClass (assertModel a).outcome = true := by
+  have hi := intr_mem_stages a
+  have hsel := selectExn_forced (stageExns false a)
+  have hrun : runExns false true a = stageExns false a ++ [.fail] := by simp [runExns]
+  unfold assertModel
+  simp only [hm, h, hrun, hsel]
+  generalize stageExns false a = L at hi
+  by_cases hint : interrupted a
+  · have hmem := hi.mpr hint
+    simp [hmem, hint, Exn.outcome, failureClass]
+  · have hmem : Exn.intr ∉ L := fun hmem => hint (hi.mp hmem)
+    simp [hmem, hint, Exn.outcome, failureClass]
+
+theorem cleanups_allRet (cs : List Act) (h : ∀ x ∈ cs, x = .ret) : somesExn (cs.map Act.exn).reverse = [] := by
+  apply somesExn_all_none
+  intro x hx
+  obtain ⟨y, hy, rfl⟩ := List.mem_map.mp (List.mem_reverse.mp hx)
+  rw [h y hy]; rfl
+
+theorem runExns_allRet (a : AssertIn) (h : allRet a = true) : runExns false false a = [] := by
+  simp only [allRet, Bool.and_eq_true, beq_iff_eq, List.all_eq_true] at h
+  obtain ⟨⟨h1, h2⟩, h3⟩ := h
+  simp [runExns, stageExns, h1, h2, Act.exn, somesExn, cleanups_allRet a.cleanups h3]
+
+theorem runExns_allRet_raised (a : AssertIn) (h : allRet a = true) : runExns true false a = [.fail] := by
+  simp only [allRet, Bool.and_eq_true, beq_iff_eq, List.all_eq_true] at h
+  obtain ⟨⟨_, h2⟩, h3⟩ := h
+  simp [runExns, stageExns, h2, Act.exn, somesExn, cleanups_allRet a.cleanups h3]
+
+/-- without a mismatch and with nothing else happening the test succeeds; a `MismatchError` raised by
+`assertThat` / `assert_that` and nothing else is a failure -/
+theorem C07_plain_outcomes (a : AssertIn) (h : allRet a = true) :
+    (a.mismatch = none → (assertModel a).outcome = .success) ∧
+    (a.mismatch.isSome = true → a.api ≠ .expectThat → (assertModel a).outcome = .failure) := by
+  constructor
+  · intro hm
+    simp [assertModel, hm, runExns_allRet a h, selectExn]
+  · intro hm ha
+    obtain ⟨ds, hds⟩ := Option.isSome_iff_exists.mp hm
+    cases hapi : a.api with
+    | expectThat => exact absurd hapi ha
+    | assertThat => simp [assertModel, hds, hapi, runExns_allRet_raised a h, selectExn, Exn.benign, Exn.outcome]
+    | assert_that => simp [assertModel, hds, hapi, runExns_allRet_raised a h, selectExn, Exn.benign, Exn.outcome]
 
 /-- **C07 (details attached under non-clobbering names)**: `assertThat` and `expectThat` keep every
 existing detail (same names, same order) and add one detail per entry of the mismatch's `get_details()`
@@ -894,6 +1006,13 @@ theorem freshAll_iff : ∀ (added ex : List Name), freshAll ex added = true ↔
       · rw [List.mem_singleton] at hmem
         subst hmem
         exact h3 hn
+-- a failed expectation followed by skipTest in the body, an expected failure in tearDown and an erroring cleanup: addFailure
+example : (assertModel { api := .expectThat, existing := [], mismatch := some [], after := .skip, tearDown := .xfail,
+                         cleanups := [.error, .ret] }).outcome = .failure := by decide
+-- … and with a KeyboardInterrupt in a cleanup: addError, re-raised; without the mismatch the skip would be reported
+example : (assertModel { api := .expectThat, existing := [], mismatch := some [], after := .skip, cleanups := [.interrupt] })
+    = { raised := false, continued := true, names := [⟨0, 0⟩], forceFailure := true, outcome := .error, propagated := true } := by decide
+example : (assertModel { api := .expectThat, existing := [], mismatch := none, after := .skip }).outcome = .skip := by decide
 
 end TTV.Props.C07
 
@@ -982,8 +1101,29 @@ theorem holds_model (i : Input) : holds i (model i) = true := by
     refine ⟨rfl, rfl, rfl, rfl, rfl, ?_, ?_, ?_⟩
     · simp only [cRaisesIff, model, assertModel]
       cases hm : a.mismatch <;> cases ha : a.api <;> simp
-    · simp only [cFailsAfterwards, model, assertModel]
-      cases hm : a.mismatch <;> cases ha : a.api <;> simp
+    · simp only [cFailsAfterwards, model]
+      cases hm : a.mismatch with
+      | none =>
+        have hff : (assertModel a).forceFailure = false := by simp [assertModel, hm]
+        have hs : (!allRet a || (assertModel a).outcome == .success) = true := by
+          cases hr : allRet a with
+          | false => rfl
+          | true => simp [(C07_plain_outcomes a hr).1 hm]
+        cases ha : a.api <;> simp [hs, hff]
+      | some ds =>
+        cases ha : a.api with
+        | expectThat =>
+          have h3 := (C07_expectThat_fails a ds ha hm).2.2
+          have hff : (assertModel a).forceFailure = true := by simp [assertModel, hm, ha]
+          simp [h3, hff]
+        | assertThat =>
+          cases hr : allRet a with
+          | false => simp
+          | true => simp [(C07_plain_outcomes a hr).2 (by simp [hm]) (by simp [ha])]
+        | assert_that =>
+          cases hr : allRet a with
+          | false => simp
+          | true => simp [(C07_plain_outcomes a hr).2 (by simp [hm]) (by simp [ha])]
     · simp only [cNonClobbering, model]
       cases hm : a.mismatch with
       | none => simp [assertModel, hm, freshAll]
@@ -1019,7 +1159,22 @@ example : matchImpl true (.not (.leaf .always)) (.int 1) = .mismatch ∧ descr t
 example : matchImpl true (.leaf (.predicate 1 .one [.exc ⟨.valueError, 1⟩ true] [.mismatch])) (.exc ⟨.valueError, 1⟩ true) = .mismatch
     ∧ matchImpl true (.leaf (.predicate 1 .empty [.dict [] []] [.mismatch])) (.dict [] []) = .raised .typeError := by decide
 -- expectThat with colliding names: "Failed expectation" exists, the detail d2 exists twice
-example : (assertModel ⟨.expectThat, [⟨0, 0⟩, ⟨2, 0⟩, ⟨2, 1⟩], some [2]⟩).names
+example : (assertModel { api := .expectThat, existing := [⟨0, 0⟩, ⟨2, 0⟩, ⟨2, 1⟩], mismatch := some [2] }).names
     = [⟨0, 0⟩, ⟨2, 0⟩, ⟨2, 1⟩, ⟨2, 2⟩, ⟨0, 1⟩] := by decide
+-- a failed expectation followed by skipTest in the body, an expected failure in tearDown and an erroring cleanup: addFailure
+example : (assertModel { api := .expectThat, existing := [], mismatch := some [], after := .skip, tearDown := .xfail,
+                         cleanups := [.error, .ret] }).outcome = .failure := by decide
+-- … and with a KeyboardInterrupt in a cleanup: addError, re-raised; without the mismatch the skip would be reported
+example : (assertModel { api := .expectThat, existing := [], mismatch := some [], after := .skip, cleanups := [.interrupt] })
+    = { raised := false, continued := true, names := [⟨0, 0⟩], forceFailure := true, outcome := .error, propagated := true } := by decide
+example : (assertModel { api := .expectThat, existing := [], mismatch := none, after := .skip }).outcome = .skip := by decide
+
+-- a failed expectation followed by skipTest in the body, an expected failure in tearDown and an erroring cleanup: addFailure
+example : (assertModel { api := .expectThat, existing := [], mismatch := some [], after := .skip, tearDown := .xfail,
+                         cleanups := [.error, .ret] }).outcome = .failure := by decide
+-- … and with a KeyboardInterrupt in a cleanup: addError, re-raised; without the mismatch the skip would be reported
+example : (assertModel { api := .expectThat, existing := [], mismatch := some [], after := .skip, cleanups := [.interrupt] })
+    = { raised := false, continued := true, names := [⟨0, 0⟩], forceFailure := true, outcome := .error, propagated := true } := by decide
+example : (assertModel { api := .expectThat, existing := [], mismatch := none, after := .skip }).outcome = .skip := by decide
 
 end TTV.Props.C07
